@@ -183,6 +183,7 @@ func runWorld(t *rapid.T, prop string) {
 		fmt.Sprintf("hijack-converge:%v/commit:%v", w.Stats.HijackConverges > 0, w.Stats.HijackCommits > 0),
 		fmt.Sprintf("forged-flood>0:%v", w.Stats.ForgedFloods > 0),
 		fmt.Sprintf("supp-variant>0:%v", w.Stats.SuppVariants > 0),
+		fmt.Sprintf("validated-then-queued>0:%v", w.Stats.StagedReceived > 0),
 	}
 	if unanimous {
 		labels = append(labels, "unanimous-mode")
